@@ -370,6 +370,14 @@ def check(prop, tier, seed, replay=None):
         run.sample(dict(campaign="random", first_calls=tr["meta"]["schedule"][:6]))
     report(run, traces, verdicts, prop)
     total_distinct += len(traces)
+    if prop == "C10":
+        # beyond the listed properties: two objects open on one file (spec/TdfHandles.tla); C10 is the
+        # property about "the table held by the open object", this is its neighbourhood.  Only notes.
+        try:
+            from . import handles
+            handles.campaign(run, seed, 150 if tier == "quick" else 20000)
+        except Exception as x:  # noqa: BLE001
+            run.cov["notes"].append(f"handles campaign did not run to completion: {type(x).__name__}: {str(x)[:200]}")
     run.cov["distinct_nontrivial"] = total_distinct
     run.cov["rule"] = ("transition tours over TLC's labelled state graph of MCSession (every selected edge = one "
                        "(model state, call) pair, executed on real files and judged by TLC against TdfSessionTrace); "
